@@ -48,6 +48,8 @@ func main() {
 		famC09(g, o, *n, *thorough)
 	case "c08":
 		famC08(g, o, *n, *thorough)
+	case "c19":
+		famC19(g, o, *n, *thorough)
 	case "c18":
 		famC18(g, o, *n, *thorough)
 	case "c17":
